@@ -4,6 +4,7 @@ import (
 	"bytes"
 	"encoding/hex"
 	"fmt"
+	"strings"
 	"testing"
 	"time"
 
@@ -31,6 +32,8 @@ func canonicalRequests() []ReqSpec {
 		{Req: wire.Req{Kind: "extended", MsgID: 6, ExtName: []byte("1.3.6.1.4.1.4203.1.11.3")}},
 		{Req: wire.Req{Kind: "extended", MsgID: 7, ExtName: []byte(wire.OIDStartTLS), HasExtValue: true, ExtValue: []byte("v")}},
 		{Req: wire.Req{Kind: "unbind", MsgID: 8}},
+		// a SASL bind: not supported by gldap, but a legitimate thing for a client to send
+		{Req: wire.Req{Kind: "bind", MsgID: 9, Version: 3, DN: []byte("cn=alice"), Password: []byte("secret"), SASL: true}},
 	}
 	ctls := []CtlSpec{
 		{Kind: "paging", Size: 5, Cookie: []byte("ck")}, {Kind: "paging", Size: 70000, Crit: true}, {Kind: "paging", NoValue: true},
@@ -120,6 +123,15 @@ func berParses(b []byte) bool {
 
 func c02Exec(canon []ReqSpec, trees []*wire.Node, canonBytes [][]byte) func(c c02MutCase, st *lab.Stats) *lab.Fail {
 	return func(c c02MutCase, st *lab.Stats) *lab.Fail {
+		if len(c.Muts) == 0 && c.Hex != "" && !strings.Contains(c.Hex, "…") {
+			// a prefix case: the stream itself is the case
+			b, err := hex.DecodeString(c.Hex)
+			if err != nil {
+				return nil
+			}
+			_, fail := decodeNoPanic(b)
+			return fail
+		}
 		if c.Canon < 0 || c.Canon >= len(trees) {
 			return nil
 		}
@@ -179,7 +191,7 @@ func TestC02Mutants(t *testing.T) {
 	}
 	lab.SkipIfReplayOther(t, "mutants")
 	st := lab.GetStats("C02", "mutants")
-	st.SetRule("exhaustive: every single-point shape/type mutation (replace by each of 42 alien node kinds, delete, duplicate, swap, truncate/extend child lists to every length, corrupt length octets, flip class/constructed/tag, corrupt primitive content) of every canonical request (each operation x each control kind, control values opened up and mutated inside); thorough adds every double-point mutant (second point from the reduced operator set); non-trivial = bytes differ from the canonical request AND asn1-ber parses the frame (gldap's own code is reached); distinct by hash of the bytes")
+	st.SetRule("exhaustive: every proper prefix of every canonical stream and of a TLS ClientHello / HTTP request; every single-point shape/type mutation (replace by each of 46 alien node kinds, delete, duplicate, swap, truncate/extend child lists to every length, corrupt length octets, flip class/constructed/tag, corrupt primitive content) of every canonical request (each operation x each control kind, control values opened up and mutated inside); thorough adds every double-point mutant (second point from the reduced operator set); non-trivial = bytes differ from the canonical request AND asn1-ber parses the frame (gldap's own code is reached); distinct by hash of the bytes")
 	defer st.Flush()
 	canon, trees, cb := c02Setup()
 	exec := c02Exec(canon, trees, cb)
@@ -199,8 +211,26 @@ func TestC02Mutants(t *testing.T) {
 	}
 	failed := map[string]bool{}
 	for ci := range trees {
-		// sanity: the canonical request itself decodes
-		if n, f := decodeNoPanic(cb[ci]); f != nil || n != 1 {
+		// every proper prefix of the canonical stream (a client that goes away mid-frame)
+		for l := 0; l < len(cb[ci]); l++ {
+			k++
+			if k%nsh != shard {
+				continue
+			}
+			_, f := decodeNoPanic(cb[ci][:l])
+			st.Case(l >= 2, cb[ci][:l], "prefix")
+			if f != nil && !failed[f.Fingerprint] {
+				if report(c02MutCase{Canon: ci, Hex: hexTrunc(cb[ci][:l])}, f) {
+					failed[f.Fingerprint] = true
+				}
+			}
+		}
+		// sanity: the canonical request itself decodes (the SASL bind is rejected, without panic)
+		if canon[ci].SASL {
+			if _, f := decodeNoPanic(cb[ci]); f != nil && report(c02MutCase{Canon: ci}, f) {
+				failed[f.Fingerprint] = true
+			}
+		} else if n, f := decodeNoPanic(cb[ci]); f != nil || n != 1 {
 			if f == nil {
 				f = lab.Failf("canonical-not-decoded", "canonical request %d (%s) was not decoded", ci, canon[ci].Kind)
 			}
@@ -239,6 +269,18 @@ func TestC02Mutants(t *testing.T) {
 					if report(c, f) {
 						failed[f.Fingerprint] = true
 					}
+				}
+			}
+		}
+	}
+	// every prefix of streams that are not LDAP at all: a TLS ClientHello, an HTTP request
+	for _, alien := range [][]byte{clientHello(), []byte("GET / HTTP/1.1\r\nHost: x\r\n\r\n"), {0x16, 0x03, 0x01, 0x02, 0x00, 0x01, 0x00, 0x01, 0xfc, 0x03, 0x03}} {
+		for l := 0; l <= len(alien) && l < 600; l++ {
+			_, f := decodeNoPanic(alien[:l])
+			st.Case(l >= 1, alien[:l], "alien-prefix")
+			if f != nil && !failed[f.Fingerprint] {
+				if report(c02MutCase{Canon: -1, Hex: hexTrunc(alien[:l])}, f) {
+					failed[f.Fingerprint] = true
 				}
 			}
 		}
